@@ -1,1 +1,3 @@
+import ZxVerif.Props.C13
+import ZxVerif.Props.C14
 import ZxVerif.Props.C17
